@@ -115,7 +115,17 @@ func cmdRun(args []string) int {
 	}
 	runs := spec.Quick
 	if *tier == "thorough" {
-		runs = spec.Thorough
+		// thorough = every quick run plus the deeper runs, so that the thorough
+		// tier never covers less than the quick tier
+		runs = nil
+		seen := map[string]bool{}
+		for _, r := range append(append([]HarnessRun{}, spec.Quick...), spec.Thorough...) {
+			key := fmt.Sprint(r.Name, r.Params, r.Fuel, r.Race)
+			if !seen[key] {
+				seen[key] = true
+				runs = append(runs, r)
+			}
+		}
 	}
 	t0 := time.Now()
 	P, err := loadProgram()
@@ -167,7 +177,7 @@ func cmdRun(args []string) int {
 		nontrivial += st.ByOutcome["ok"]
 		fmt.Printf("harness %-40s paths=%d outcomes=%v queries=%d solver=%.1fs wall=%.1fs tags=%v\n", hr.Name, st.Paths, st.ByOutcome, st.Queries, st.SolverTime.Seconds(), st.Wall.Seconds(), st.Tags)
 		// vacuity
-		if st.Asserts == 0 {
+		if st.Asserts == 0 && rep.Completed {
 			inconclusive = append(inconclusive, fmt.Sprintf("VACUOUS harness=%s: no assertion reached", hr.Name))
 		}
 		for _, tag := range hr.Require {
@@ -272,7 +282,7 @@ func cmdRun(args []string) int {
 						fmt.Println(tailStr(out, 1500))
 					}
 				}
-				if confirms(c.Outcome, nr) || *noNative {
+				if confirms(c.Outcome, nr, pkg) || *noNative {
 					path := saveReplay(spec.ID, c)
 					fmt.Printf("  %s: %s  inputs=%v choices=%v  [native: %s %s]\n", c.Outcome, c.Msg, c.Vars, c.Choices, nr.Status, nr.Msg)
 					fmt.Printf("VIOLATION property=%s replay=%s\n", spec.ID, path)
@@ -435,7 +445,7 @@ func cmdReplay(args []string) int {
 	if os.Getenv("VP_DEBUG") != "" {
 		fmt.Println(out)
 	}
-	if confirms(w.Outcome, res[0]) {
+	if confirms(w.Outcome, res[0], pkgOfHarness(w.Harness)) {
 		fmt.Printf("VIOLATION property=%s replay=%s\n", w.Property, args[0])
 		return 1
 	}
